@@ -13,7 +13,10 @@
 use crate::polyio::*;
 use crate::polyops;
 use crate::util::*;
+use spindalis_core::derivatives::intermediate::partial_derivative;
+use spindalis_core::derivatives::simple::simple_derivative;
 use spindalis_core::polynomials::structs::{IntermediatePolynomial, PolynomialTraits, SimplePolynomial};
+use spindalis_core::polynomials::Term;
 
 // ---------------------------------------------------------------- running one request
 
@@ -102,6 +105,58 @@ pub fn closure(src: &AnyPoly, res: &AnyPoly, x: f64) -> Result<(), String> {
     Ok(())
 }
 
+fn same_f(a: f64, b: f64) -> bool {
+    a.to_bits() == b.to_bits() || (a.is_nan() && b.is_nan())
+}
+pub fn same_terms(a: &[Term], b: &[Term]) -> bool {
+    a.len() == b.len()
+        && a.iter().zip(b.iter()).all(|(s, t)| {
+            same_f(s.coefficient, t.coefficient)
+                && s.variables.len() == t.variables.len()
+                && s.variables.iter().zip(t.variables.iter()).all(|(u, v)| u.0 == v.0 && same_f(u.1, v.1))
+        })
+}
+pub fn same_coeffs(a: &[f64], b: &[f64]) -> bool {
+    a.len() == b.len() && a.iter().zip(b.iter()).all(|(x, y)| same_f(*x, *y))
+}
+
+/// the free functions `simple_derivative` / `partial_derivative` (owned and borrowed variable name) and the trait
+/// methods duplicate each other: the result `res` of a derivative step must be what the free function gives
+pub fn free_agrees(src: &AnyPoly, s: &Step, res: &AnyPoly) -> Result<(), String> {
+    match (src, s, res) {
+        (AnyPoly::S(q), Step::D, AnyPoly::S(r)) => {
+            let f = catch(|| simple_derivative(q)).ok_or("simple_derivative panicked")?;
+            if !same_coeffs(&f.coefficients, &r.coefficients) || f.variable != r.variable {
+                return Err("derivate_univariate differs from simple_derivative on the same polynomial".into());
+            }
+        }
+        (AnyPoly::S(q), Step::DV(v), AnyPoly::S(r)) => {
+            if v.chars().next() == q.variable {
+                let f = catch(|| simple_derivative(q)).ok_or("simple_derivative panicked")?;
+                if !same_coeffs(&f.coefficients, &r.coefficients) || f.variable != r.variable {
+                    return Err(format!("derivate_multivariate({v:?}) differs from simple_derivative on the same polynomial"));
+                }
+            }
+        }
+        (AnyPoly::I(q), Step::D, AnyPoly::I(r)) => {
+            let var = q.variables.first().cloned().unwrap_or_else(|| "x".to_string());
+            let f = catch(|| partial_derivative(&q.terms, &var)).ok_or("partial_derivative panicked")?;
+            if !same_terms(&f.terms, &r.terms) {
+                return Err(format!("derivate_univariate differs from partial_derivative(terms, {var:?})"));
+            }
+        }
+        (AnyPoly::I(q), Step::DV(v), AnyPoly::I(r)) => {
+            let f = catch(|| partial_derivative(&q.terms, v.as_str())).ok_or("partial_derivative panicked")?;
+            let g = catch(|| partial_derivative(&**q, v.clone())).ok_or("partial_derivative panicked")?;
+            if !same_terms(&f.terms, &r.terms) || f.variables != r.variables || !same_terms(&g.terms, &r.terms) || g.variables != r.variables {
+                return Err(format!("derivate_multivariate({v:?}) differs from partial_derivative(terms, {v:?})"));
+            }
+        }
+        _ => {}
+    }
+    Ok(())
+}
+
 fn answer(line: &str) -> (String, Result<(), String>) {
     let mut t = Toks::new(line);
     let cmd = t.tok();
@@ -111,7 +166,7 @@ fn answer(line: &str) -> (String, Result<(), String>) {
             let p = read_any(&mut t);
             let ans = polyops::answer(line);
             let verdict = match polyops::deriv_uni(&p) {
-                Ok(q) => closure(&p, &q, x0),
+                Ok(q) => closure(&p, &q, x0).and_then(|_| free_agrees(&p, &Step::D, &q)),
                 Err(_) => Ok(()),
             };
             (ans, verdict)
@@ -121,7 +176,7 @@ fn answer(line: &str) -> (String, Result<(), String>) {
             let v = t.string();
             let ans = polyops::answer(line);
             let q = polyops::deriv_multi(&p, &v);
-            (ans, closure(&p, &q, x0))
+            (ans, closure(&p, &q, x0).and_then(|_| free_agrees(&p, &Step::DV(v.clone()), &q)))
         }
         "chain" | "chainm" => {
             let mut p = read_any(&mut t);
@@ -134,7 +189,7 @@ fn answer(line: &str) -> (String, Result<(), String>) {
                     Ok(q) => {
                         out.push(format!("ok {}", show_any(&q)));
                         if matches!(s, Step::D | Step::DV(_)) && verdict.is_ok() {
-                            verdict = closure(&p, &q, x0);
+                            verdict = closure(&p, &q, x0).and_then(|_| free_agrees(&p, &s, &q));
                         }
                         p = q;
                     }
@@ -280,17 +335,188 @@ pub fn gen_simple_text(rng: &mut Rng) -> String {
     join_terms(rng, &terms)
 }
 
+const ALPHA: &str = "abcdefghijklmnopqrstuvwxyzABCDEFGHIJKLMNOPQRSTUVWXYZ";
+
+fn hard_exponent_text(rng: &mut Rng) -> String {
+    match rng.below(6) {
+        0 => format!("^{}", *rng.pick(&["300", "-300", "1000", "-1000", "255", "256", "257", "65535", "65536", "65537", "4294967296", "4294967297", "100", "64"])),
+        1 => format!("^{}", *rng.pick(&["0.0000001", "1.0000001", "0.9999999", "1.000000000001", "0.000000000001", "2.0000000001", "-0.0000001", "1.5", "0.1", "2.75", "-1.5", "1.000000000000001", "0.999999999999999", "1.0000000000000002", "0.9999999999999999", "1.00000001", "0.99999"])),
+        // equal to 1 / 0 / 2 only after parsing
+        2 => format!("^{}", *rng.pick(&["1.0", "2/2", "01", "0.99999999999999999999", "1.00000000000000000001", "3/3", "0.0", "-0", "0/7", "00", "2.0", "4/2", "1.", "0.5/0.5"])),
+        3 => format!("^{}/{}", rng.range(1, 40), rng.range(2, 12)),
+        4 => format!("^-{}/{}", rng.range(1, 20), rng.range(2, 9)),
+        _ => exponent_text(rng),
+    }
+}
+
+/// harder texts of the multivariate grammar: coefficients of extreme magnitude / length, extreme exponents, exponents
+/// that meet 1 or 0 only after parsing or after merging a repeated variable, upper/lower-case pairs and every letter,
+/// 6..40 terms, up to 12 variables in a term
+pub fn gen_inter_text_hard(rng: &mut Rng) -> String {
+    match rng.below(6) {
+        0 => {
+            // wide coefficients
+            let pool: &[&str] = *rng.pick(&[&["x"][..], &["x", "y"][..], &["t", "a", "X"][..]]);
+            let n = rng.range(1, 4) as usize;
+            let mut terms = Vec::new();
+            for _ in 0..n {
+                let nv = rng.below(3);
+                let mut body = crate::c02::wide_coeff(rng).text;
+                for _ in 0..nv {
+                    body.push_str(*rng.pick(pool));
+                    body.push_str(&exponent_text(rng));
+                }
+                terms.push((rng.chance(1, 3), body));
+            }
+            join_terms(rng, &terms)
+        }
+        1 => {
+            // extreme exponents
+            let pool: &[&str] = *rng.pick(&[&["x"][..], &["x", "y"][..], &["y"][..], &["b", "a"][..]]);
+            let n = rng.range(1, 3) as usize;
+            let mut terms = Vec::new();
+            for _ in 0..n {
+                let nv = rng.range(1, 2);
+                let mut body = coef_text(rng, true, true);
+                for _ in 0..nv {
+                    body.push_str(*rng.pick(pool));
+                    body.push_str(&hard_exponent_text(rng));
+                }
+                terms.push((rng.chance(1, 3), body));
+            }
+            join_terms(rng, &terms)
+        }
+        2 => {
+            // a repeated variable whose exponents add up to 1, 0, -1, 2 (exactly, or only after rounding)
+            let v = *rng.pick(&["x", "y", "t", "X"]);
+            let w = *rng.pick(&["y", "a", "x", "Z"]);
+            let pat = *rng.pick(&[
+                "V^1/3V^2/3", "V^0.5V^0.5", "V^2V^-1", "V^3V^-3", "V^-2V", "V^0.25V^0.75", "VV^0", "V^-1V^2W", "WV^1/2V^1/2", "V^0.1V^0.2V^0.7",
+                "V^-1/2V^-1/2", "V^1/3V^1/3V^1/3", "V^2/3V^2/3V^2/3", "VWV^-1", "V^1.5V^-0.5W^2", "V^0.3V^0.7", "V^-0.5V^1.5", "V^4V^-2", "V^0.1V^-0.1W",
+            ]);
+            let body = pat.replace('V', v).replace('W', if w == v { "q" } else { w });
+            let mut terms = vec![(rng.chance(1, 3), format!("{}{}", coef_text(rng, true, true), body))];
+            if rng.chance(1, 2) {
+                terms.push((rng.chance(1, 2), format!("{}{}{}", coef_text(rng, true, true), v, exponent_text(rng))));
+            }
+            join_terms(rng, &terms)
+        }
+        3 => {
+            // upper/lower-case pairs and arbitrary letters
+            let c = ALPHA.chars().nth(rng.below(52) as usize).unwrap();
+            let o = if c.is_ascii_lowercase() { c.to_ascii_uppercase() } else { c.to_ascii_lowercase() };
+            let d = ALPHA.chars().nth(rng.below(52) as usize).unwrap();
+            let pool = [c.to_string(), o.to_string(), d.to_string()];
+            let n = rng.range(1, 4) as usize;
+            let mut terms = Vec::new();
+            for _ in 0..n {
+                let nv = rng.range(1, 3);
+                let mut body = coef_text(rng, true, true);
+                for _ in 0..nv {
+                    body.push_str(rng.pick(&pool[..]).as_str());
+                    body.push_str(&exponent_text(rng));
+                }
+                terms.push((rng.chance(1, 3), body));
+            }
+            join_terms(rng, &terms)
+        }
+        4 => {
+            // many terms
+            let pool = ["x", "y", "z"];
+            let n = rng.range(6, 40) as usize;
+            let mut terms = Vec::new();
+            for _ in 0..n {
+                let nv = rng.below(3);
+                let mut body = coef_text(rng, true, nv > 0);
+                for _ in 0..nv {
+                    body.push_str(*rng.pick(&pool));
+                    body.push_str(&exponent_text(rng));
+                }
+                terms.push((rng.chance(1, 3), body));
+            }
+            join_terms(rng, &terms)
+        }
+        _ => {
+            // many variables in one term
+            let nv = rng.range(4, 12) as usize;
+            let mut letters: Vec<char> = ALPHA.chars().collect();
+            for i in (1..letters.len()).rev() {
+                letters.swap(i, rng.below(i as u64 + 1) as usize);
+            }
+            let mut body = coef_text(rng, true, true);
+            for c in letters.iter().take(nv) {
+                body.push(*c);
+                body.push_str(&exponent_text(rng));
+            }
+            let mut terms = vec![(rng.chance(1, 3), body)];
+            if rng.chance(1, 2) {
+                terms.push((false, format!("{}{}", letters[nv - 1], letters[0])));
+            }
+            join_terms(rng, &terms)
+        }
+    }
+}
+
+/// harder texts of the univariate grammar: degrees 6..70, the powers around 255 / 256 / 1000, coefficients of extreme
+/// magnitude / length, equal powers that merge or cancel, other letters
+pub fn gen_simple_text_hard(rng: &mut Rng) -> String {
+    let var = *rng.pick(&["x", "y", "X", "Q", "e", "é", "λ", "k"]);
+    let top: i64 = match rng.below(8) {
+        0 => *rng.pick(&[255, 256, 257, 511, 512, 1000, 1023, 1024, 1025]),
+        _ => rng.range(6, 70),
+    };
+    let n = rng.range(1, 6) as usize;
+    let mut terms = Vec::new();
+    let coef = |rng: &mut Rng| -> String {
+        if rng.chance(1, 3) {
+            loop {
+                let c = crate::c02::wide_coeff(rng);
+                if !c.text.contains('/') {
+                    return c.text;
+                }
+            }
+        } else {
+            coef_text(rng, false, true)
+        }
+    };
+    terms.push((rng.chance(1, 3), format!("{}{}^{}", coef(rng), var, top)));
+    for _ in 0..n {
+        let p = match rng.below(6) {
+            0 => top,
+            1 => top - 1,
+            2 => rng.range(0, 3),
+            _ => rng.range(0, top),
+        };
+        terms.push((rng.chance(1, 3), format!("{}{}^{}", coef(rng), var, p)));
+    }
+    if rng.chance(1, 6) {
+        // the leading terms cancel exactly: the top coefficient is 0.0
+        terms.push((true, format!("7{var}^{}", top + 1)));
+        terms.push((false, format!("7{var}^{}", top + 1)));
+    }
+    join_terms(rng, &terms)
+}
+
 /// texts every run starts from: the inputs of the repaired defects D7–D9 and the corner shapes
 pub const FIXED_INTER: &[&str] = &[
     "xx", "5", "x^3 + x^2", "x^0", "x^-1", "x^1/2", "2xy", "", "0", "-x", "xx^-1", "x^2y^2 + y", "3x^2 - 2x + 1",
     "x + y + z", "-7", "1/2x^-1/2", "x^2x^3 + xyx", "yx", "zyx^2", "4x^0.5y^-2 - 3", "x^1.5 + x^2.5", "2.5", "x^1",
     "xy^0", "1/3x^3", "x^-2 + x^-3", "ab + ba", "X + t^2",
+    // hardening: powers that meet 1 / 0 after merging or rounding, case pairs, extreme exponents and coefficients
+    "x^1/3x^2/3", "x^0.5x^0.5y", "x^2x^-1", "x^3x^-3 + x", "x^0.99999999999999999999", "x^1.0000001", "x^0.0000001", "x^-0", "x^1.0000000000000002 + x", "y^0.9999999999999999", "x^1.000000000000001y", "x^1.000000000001",
+    "xX", "Xx^2 + x", "aA^2b", "x^300", "x^-300y", "x^65536", "x^65537 + x^256", "x^4294967296", "x^255y^256",
+    "0.0000000000000000000000000000000000000001x^2", "1000000000000000000000000000000000000000x^3y", "0x^2 + 0y", "-0x",
+    "x + x + x + x + x + x + x + x + x", "abcdefghij", "a^2b^2c^2d^2e^2f^2g^2h^2i^2", "x^2/2", "x^3/3y", "x^1.",
 ];
 pub const FIXED_SIMPLE: &[&str] =
     &[
     // the largest exponents the parser accepts (MAX_POWER = 65536) and its neighbours
     "x^65536", "3x^65535 + x", "x^65537", "2y^065536 - y^65535",
-    "5", "x^3 + x^2", "x", "", "0", "-x", "3x^2 - 2x + 1", "x^0", "2.5y^4 - y + .5", "t^9", "x^2 + x^2", "7 - 7", "4x^1"];
+    "5", "x^3 + x^2", "x", "", "0", "-x", "3x^2 - 2x + 1", "x^0", "2.5y^4 - y + .5", "t^9", "x^2 + x^2", "7 - 7", "4x^1",
+    // hardening: lengths around the powers of two, cancelled leading terms, extreme coefficients, other letters
+    "x^255 + x^256 + x^257", "2x^15 - x^16 + x^17 + x^8 + x^9", "x^31 + x^32 + x^33 + 1", "x^64 - x^63 + x^65", "x^1000 + x",
+    "x^5 - x^5", "x^9 - x^9 + x^2", "0.0000000000000000000000000000000000000001x^3 + x", "1000000000000000000000000000000000000000x^2",
+    "X^3 + X", "é^4 - é", "λ^2", "0x^7", "-0x^3 + x"];
 
 pub fn parse_inter(text: &str) -> Option<AnyPoly> {
     catch(|| IntermediatePolynomial::parse(text)).and_then(|r| r.ok()).map(AnyPoly::I)
@@ -308,7 +534,12 @@ pub fn poly_names(p: &AnyPoly) -> Vec<String> {
 
 /// a differentiation / integration variable: present, absent, multi-letter, empty
 pub fn pick_var(rng: &mut Rng, names: &[String]) -> String {
-    match rng.below(10) {
+    match rng.below(11) {
+        10 => {
+            // the other case of a name in use (a different variable)
+            let n = names.first().map(|s| s.as_str()).unwrap_or("x");
+            if n.chars().all(|c| c.is_ascii_lowercase()) { n.to_ascii_uppercase() } else { n.to_ascii_lowercase() }
+        }
         0 => "q".to_string(),
         1 => format!("{}y", names.first().map(|s| s.as_str()).unwrap_or("x")),
         2 => String::new(),
@@ -325,6 +556,24 @@ pub fn pick_var(rng: &mut Rng, names: &[String]) -> String {
 
 /// an evaluation point; kept positive unless `any` (the oracle decides what the domain allows)
 pub fn pick_point(rng: &mut Rng, any: bool) -> f64 {
+    // one point in five from the wide families: next to 1 and to 0 at every distance, 2^-60..2^60, signed zeros
+    if rng.chance(1, 5) {
+        let v = match rng.below(6) {
+            0 => 1.0 + 2f64.powi(-(rng.range(1, 52) as i32)),
+            1 => 1.0 - 2f64.powi(-(rng.range(1, 53) as i32)),
+            2 => 10f64.powi(-(rng.range(1, 25) as i32)),
+            3 => 2f64.powi(rng.range(-60, 60) as i32),
+            4 => rng.range(2, 50) as f64 * 2f64.powi(rng.range(-30, 20) as i32),
+            _ => {
+                if any {
+                    -0.0
+                } else {
+                    1.0
+                }
+            }
+        };
+        return if any && rng.chance(1, 3) { -v } else { v };
+    }
     match rng.below(8) {
         0 if any => 0.0,
         1 if any => -rng.dyadic(24, 3).abs() - 0.25,
@@ -350,8 +599,15 @@ fn emit_for(rng: &mut Rng, text: &str, p: &AnyPoly, emit: &mut dyn FnMut(String)
     let ps = req_any(p);
     let names = poly_names(p);
     let pre = format!("txt {}", req_string(text));
-    let mut kinds: Vec<u64> = if all { vec![0, 1, 1, 2, 2, 3] } else { vec![rng.below(4), rng.below(4)] };
+    let mut kinds: Vec<u64> = if all { vec![0, 1, 1, 2, 2, 3, 4] } else { vec![rng.below(4), rng.below(4)] };
+    if !all && rng.chance(1, 10) {
+        kinds.push(4);
+    }
     kinds.dedup();
+    // (requests of the exponent-limit texts are megabytes each: no extra ones)
+    if ps.len() > 100_000 {
+        kinds.retain(|k| *k != 4);
+    }
     for mut kind in kinds {
         // the univariate entry point on a multivariate polynomial is only an error: keep it rare
         if kind == 0 && names.len() > 1 && !all && rng.chance(3, 4) {
@@ -360,6 +616,20 @@ fn emit_for(rng: &mut Rng, text: &str, p: &AnyPoly, emit: &mut dyn FnMut(String)
         match kind {
             0 => emit(format!("{pre} deriv {ps}")),
             1 => emit(format!("{pre} pderiv {ps} {}", req_string(&pick_var(rng, &names)))),
+            4 => {
+                // differentiate repeatedly, past the point where nothing is left
+                let k = rng.range(4, 7) as usize;
+                let mut s = format!("{pre} chain {ps} {k}");
+                for _ in 0..k {
+                    if rng.chance(1, 3) && !names.is_empty() {
+                        s.push_str(&format!(" D {}", req_string(rng.pick(&names[..]).as_str())));
+                    } else {
+                        s.push_str(" d");
+                    }
+                }
+                s.push_str(&format!(" {}", rbits(pick_point(rng, true))));
+                emit(s)
+            }
             2 => {
                 let k = rng.range(1, 3) as usize;
                 let mut s = format!("{pre} chain {ps} {k}");
@@ -432,6 +702,30 @@ pub fn generate(seed: u64, thorough: bool, emit: &mut dyn FnMut(String)) {
             (t, p)
         };
         // texts the parser refuses are not this property's business (C16)
+        if let Some(p) = p {
+            emit_for(&mut rng, &text, &p, emit, false);
+        }
+    }
+    // hardening families (own stream, so that the requests above stay what they were)
+    let mut rng = Rng::new(Rng::new(seed ^ 0xC03_0002).next());
+    // every dense length 6..=70 at least once
+    for len in 6..=70usize {
+        let t = format!("{}x^{} + {}x^{} - x + {}", rng.range(1, 9), len - 1, rng.range(1, 9), len / 2, rng.range(0, 9));
+        if let Some(p) = parse_simple(&t) {
+            emit_for(&mut rng, &t, &p, emit, false);
+        }
+    }
+    let m = if thorough { 40000 } else { 900 };
+    for i in 0..m {
+        let (text, p) = if i % 3 == 2 {
+            let t = gen_simple_text_hard(&mut rng);
+            let p = parse_simple(&t);
+            (t, p)
+        } else {
+            let t = gen_inter_text_hard(&mut rng);
+            let p = parse_inter(&t);
+            (t, p)
+        };
         if let Some(p) = p {
             emit_for(&mut rng, &text, &p, emit, false);
         }
